@@ -1,5 +1,5 @@
 INFO = {
     "level": "proof",
-    "level_text": "Postcondition of every enter (from the descriptor table, not from the code): a vehicle that starts charging/queueing is in the station's cell, one that parks or charges at a base is in the base's cell, a trip starts at the request's origin with a route to its destination, and a dispatch route starts at the vehicle and ends at the target (empty route iff already there); stations and bases are proved never to move (modify_*_safe), move() puts the vehicle at the junction of its traversal.",
+    "level_text": "DispatchPoolingTrip.enter is verified from its body: the planned route leads from the vehicle to the first request of the plan. Postcondition of every enter (from the descriptor table, not from the code): a vehicle that starts charging/queueing is in the station's cell, one that parks or charges at a base is in the base's cell, a trip starts at the request's origin with a route to its destination, and a dispatch route starts at the vehicle and ends at the target (empty route iff already there); stations and bases are proved never to move (modify_*_safe), move() puts the vehicle at the junction of its traversal.",
     "level_note": 'route correspondence is over the symbolic route value; road_network.route is an uninterpreted function (its own correctness is C13); persistence of the location fact while the activity lasts follows from the frames of the update layer (only travelling activities change position).',
 }
